@@ -10,15 +10,17 @@ Code modelled (read line by line):
     - `AbstractPool.compile`                    → `stepCompile`
     - `AbstractPool.compile_in_tx`              → `txSend`, `stepTx`
 * `edb/server/compiler_pool/worker.py`
-    - `__sync__`                                → `wsync` (+ `wsyncTail`)
+    - `__sync__`                                → `wsync`
     - `compile`, `compile_in_tx`                → worker halves of `stepCompile` / `stepTx`
 * `edb/server/compiler_pool/worker_proc.py::worker` (status 0 / 1 / 2 framing)
 
 Values are *identity tokens* (`Tok = Nat`): the server compares with `is`,
 never with `==`, so two tokens are "the same" iff they are the same number.
-`Env.falsy t` says that the Python object behind `t` is falsy (an empty
-`immutables.Map`, `b''`): `sync_worker_state_cb` merges with `new or old`.
 `Env.bad t` says that unpickling the payload of `t` in the worker raises.
+`Env.falsy t` says that the Python object behind `t` is falsy (an empty
+`immutables.Map`, `b''`); since repair 2709780 (`old if new is None else new`
+instead of `new or old`) nothing in this model depends on it — it is kept for
+Model/SyncBuggy.lean, which preserves the pre-repair transitions.
 
 Maps (`immutables.Map`) are total functions into `Option`; the set of workers
 is `Nat` (every worker starts from the same init args).  Which worker serves a
@@ -109,7 +111,7 @@ inductive COut where
   | okNoState
   /-- raises (an ordinary compilation error) -/
   | raise
-  /-- returns a `cstate` whose `pickle.dumps` raises (after `LAST_STATE = cstate`) -/
+  /-- returns a `cstate` whose `pickle.dumps` raises (before `LAST_STATE` is assigned) -/
   | statePickleFail
   /-- returns `units` that cannot be pickled: `worker_proc.worker` answers status 2 -/
   | resultUnpicklable
@@ -143,16 +145,11 @@ def preargs (b : Side) (r : CReq) : Parts :=
       dbcfg := if d.dbcfg = r.dbcfg then none else some r.dbcfg
       sys := if b.sys = r.sys then none else some r.sys }
 
-/-- `new or old` with `new` possibly `None`. -/
-def orOld (env : Env) (new : Option Tok) (old : Tok) : Tok :=
-  match new with
-  | none => old
-  | some t => if env.falsy t then old else t
-
 /-- `sync_worker_state_cb(worker, dbname, **to_update)`; `none` = one of its
     `assert`s fails (never happens for `to_update = preargs`, see
-    `Lemmas/Sync`). -/
-def ack (env : Env) (b : Side) (db : Nat) (p : Parts) : Option Side :=
+    `Lemmas/Sync`).  A part that is not `None` replaces the believed one
+    (`old if new is None else new`). -/
+def ack (b : Side) (db : Nat) (p : Parts) : Option Side :=
   match b.dbs db with
   | none =>
     match p.schema, p.refl, p.glob, p.dbcfg, p.sys with
@@ -162,8 +159,7 @@ def ack (env : Env) (b : Side) (db : Nat) (p : Parts) : Option Side :=
   | some d =>
     let dbs' :=
       if p.schema.isSome || p.refl.isSome || p.dbcfg.isSome then
-        setDb b.dbs db ⟨orOld env p.schema d.schema, orOld env p.refl d.refl,
-                        orOld env p.dbcfg d.dbcfg⟩
+        setDb b.dbs db ⟨p.schema.getD d.schema, p.refl.getD d.refl, p.dbcfg.getD d.dbcfg⟩
       else b.dbs
     some { b with dbs := dbs', glob := p.glob.getD b.glob, sys := p.sys.getD b.sys }
 
@@ -171,39 +167,28 @@ def badO (env : Env) : Option Tok → Bool
   | none => false
   | some t => env.bad t
 
-/-- Second half of `__sync__`: `GLOBAL_SCHEMA`, then `INSTANCE_CONFIG`; the
-    `DBS` update has already happened.  `none` = `FailedStateSync`. -/
-def wsyncTail (env : Env) (a : Side) (p : Parts) (d : Db3) : Side × Option Db3 :=
-  match p.glob with
-  | some g =>
-    if env.bad g then (a, none) else
-    let a2 := { a with glob := g }
-    match p.sys with
-    | some y => if env.bad y then (a2, none) else ({ a2 with sys := y }, some d)
-    | none => (a2, some d)
-  | none =>
-    match p.sys with
-    | some y => if env.bad y then (a, none) else ({ a with sys := y }, some d)
-    | none => (a, some d)
-
 /-- Worker `__sync__(dbname, user_schema, reflection_cache, global_schema,
-    database_config, system_config)`.  Returns the new worker state and the
-    `DatabaseState` it returns, or `none` for `FailedStateSync` (state as far
-    as it got). -/
+    database_config, system_config)`: everything that was sent is unpickled
+    first (inside the `try`); only then `DBS`, `GLOBAL_SCHEMA`,
+    `INSTANCE_CONFIG` are assigned.  Returns the new worker state and the
+    `DatabaseState` it returns, or `none` for `FailedStateSync` (worker state
+    untouched). -/
 def wsync (env : Env) (a : Side) (db : Nat) (p : Parts) : Side × Option Db3 :=
   match a.dbs db with
   | none =>
     match p.schema, p.refl, p.dbcfg with
     | some s, some r, some c =>
-      if env.bad s || env.bad r || env.bad c then (a, none) else
-      wsyncTail env { a with dbs := setDb a.dbs db ⟨s, r, c⟩ } p ⟨s, r, c⟩
+      if env.bad s || env.bad r || env.bad c || badO env p.glob || badO env p.sys then (a, none) else
+      ({ a with dbs := setDb a.dbs db ⟨s, r, c⟩, glob := p.glob.getD a.glob, sys := p.sys.getD a.sys },
+       some ⟨s, r, c⟩)
     | _, _, _ => (a, none)     -- AssertionError inside the try → FailedStateSync
   | some d0 =>
-    if badO env p.schema || badO env p.refl || badO env p.dbcfg then (a, none) else
+    if badO env p.schema || badO env p.refl || badO env p.dbcfg || badO env p.glob || badO env p.sys
+    then (a, none) else
     let d : Db3 := ⟨p.schema.getD d0.schema, p.refl.getD d0.refl, p.dbcfg.getD d0.dbcfg⟩
-    let a1 := if p.schema.isSome || p.refl.isSome || p.dbcfg.isSome
-              then { a with dbs := setDb a.dbs db d } else a
-    wsyncTail env a1 p d
+    -- `if DBS.get(dbname) is not db: DBS = DBS.set(dbname, db)`
+    let dbs' := if p.schema.isSome || p.refl.isSome || p.dbcfg.isSome then setDb a.dbs db d else a.dbs
+    ({ a with dbs := dbs', glob := p.glob.getD a.glob, sys := p.sys.getD a.sys }, some d)
 
 /-- What the worker-side compiler entry point was called with
     (`user_schema, global_schema, reflection_cache, database_config,
@@ -249,40 +234,45 @@ structure CObs where
   used : Option Used
 deriving DecidableEq, Repr
 
-/-- apply the acknowledgement callback (if any), then `k` -/
-def withAck (env : Env) (b : Side) (db : Nat) (p : Parts) : Option Side :=
-  if p.isEmpty then some b else ack env b db p
+/-- apply the acknowledgement callback (if any) -/
+def withAck (b : Side) (db : Nat) (p : Parts) : Option Side :=
+  if p.isEmpty then some b else ack b db p
+
+/-- `worker._last_pickled_state = None` -/
+def Side.forget (b : Side) : Side := { b with last := none }
 
 /-- `AbstractPool.compile` on worker `r.w`, with `BaseWorker.call`'s status
     handling: the callback runs on status 0 and on status 1 with an exception
-    that is not `FailedStateSync`; never on status 2. -/
+    that is not `FailedStateSync`; never on status 2.  The worker assigns
+    `LAST_STATE` after `pickle.dumps(cstate)` succeeded; the pool forgets
+    `_last_pickled_state` whenever `worker.call` raises. -/
 def stepCompile (env : Env) (st : State) (r : CReq) : State × CObs :=
   let ws := st r.w
   let p := preargs ws.bel r
   let cb := !p.isEmpty
   match wsync env ws.act r.db p with
   | (a', none) =>
-    (upd st r.w ⟨ws.bel, a'⟩, ⟨p, cb, .syncFail, none⟩)
+    (upd st r.w ⟨ws.bel.forget, a'⟩, ⟨p, cb, .syncFail, none⟩)
   | (a', some d) =>
     let used : Used := ⟨d.schema, a'.glob, d.refl, d.dbcfg, a'.sys⟩
     -- worker side: LAST_STATE
     let aLast : Option Tok := match r.out with
-      | .ok | .statePickleFail | .resultUnpicklable => some r.ns
+      | .ok | .resultUnpicklable => some r.ns
       | .okNoState => none
-      | .raise => a'.last
+      | .raise | .statePickleFail => a'.last
     let a'' := { a' with last := aLast }
     match r.out with
     | .resultUnpicklable =>
-      (upd st r.w ⟨ws.bel, a''⟩, ⟨p, cb, .serErr, some used⟩)
+      (upd st r.w ⟨ws.bel.forget, a''⟩, ⟨p, cb, .serErr, some used⟩)
     | out =>
-      match withAck env ws.bel r.db p with
-      | none => (upd st r.w ⟨ws.bel, a''⟩, ⟨p, cb, .cbAssert, some used⟩)
+      match withAck ws.bel r.db p with
+      | none => (upd st r.w ⟨ws.bel.forget, a''⟩, ⟨p, cb, .cbAssert, some used⟩)
       | some b' =>
         match out with
         | .ok => (upd st r.w ⟨{ b' with last := some r.ns }, a''⟩, ⟨p, cb, .ok, some used⟩)
         | .okNoState => (upd st r.w ⟨{ b' with last := none }, a''⟩, ⟨p, cb, .ok, some used⟩)
-        | .raise => (upd st r.w ⟨b', a''⟩, ⟨p, cb, .compErr, some used⟩)
-        | _ => (upd st r.w ⟨b', a''⟩, ⟨p, cb, .statePickleErr, some used⟩)
+        | .raise => (upd st r.w ⟨b'.forget, a''⟩, ⟨p, cb, .compErr, some used⟩)
+        | _ => (upd st r.w ⟨b'.forget, a''⟩, ⟨p, cb, .statePickleErr, some used⟩)
 
 /-! ### compile_in_tx -/
 
@@ -366,23 +356,23 @@ def stepTx (env : Env) (st : State) (r : TReq) : State × TObs :=
   let ws := st r.w
   let s := txSend ws.bel r
   match wtxPrepare env ws.act r s with
-  | .error e => (st, ⟨s, e, none⟩)
+  | .error e => (upd st r.w ⟨ws.bel.forget, ws.act⟩, ⟨s, e, none⟩)
   | .ok u =>
     match r.out with
-    | .raise => (st, ⟨s, .compErr, some u⟩)
+    | .raise => (upd st r.w ⟨ws.bel.forget, ws.act⟩, ⟨s, .compErr, some u⟩)
     | .raiseMutated =>
       match s with
       | .reuse =>     -- `cstate = LAST_STATE`: the in-place mutation survives the exception
-        (upd st r.w ⟨ws.bel, { ws.act with last := some r.ns }⟩, ⟨s, .compErr, some u⟩)
+        (upd st r.w ⟨ws.bel.forget, { ws.act with last := some r.ns }⟩, ⟨s, .compErr, some u⟩)
       | _ =>          -- a freshly unpickled object was mutated and is dropped
-        (st, ⟨s, .compErr, some u⟩)
+        (upd st r.w ⟨ws.bel.forget, ws.act⟩, ⟨s, .compErr, some u⟩)
     | .ok =>
       (upd st r.w ⟨{ ws.bel with last := some r.ns }, { ws.act with last := some r.ns }⟩,
        ⟨s, .ok, some u⟩)
-    | .statePickleFail =>
-      (upd st r.w ⟨ws.bel, { ws.act with last := some r.ns }⟩, ⟨s, .statePickleErr, some u⟩)
+    | .statePickleFail =>   -- `LAST_STATE` is assigned after the pickling
+      (upd st r.w ⟨ws.bel.forget, ws.act⟩, ⟨s, .statePickleErr, some u⟩)
     | .resultUnpicklable =>
-      (upd st r.w ⟨ws.bel, { ws.act with last := some r.ns }⟩, ⟨s, .serErr, some u⟩)
+      (upd st r.w ⟨ws.bel.forget, { ws.act with last := some r.ns }⟩, ⟨s, .serErr, some u⟩)
 
 /-! ### histories -/
 
